@@ -18,8 +18,11 @@
                                      twice), conditional expression / and-or / walrus lifted before an
                                      earlier call operand.  Replayed on the real CFGBuilder on every run;
                                      listed in props/C05/known_findings.json.
-       NOT proved: the statement level (if/while wiring) — C03's open gap — and the order_safe
-       fragment beyond frag_cond (searched only).
+       [trace_equal_partial]         statement level (re-export of C03's build_preserves_partial): for every
+                                     body in C03's fragment [frag_stmts] the call events of the built CFG are
+                                     exactly Python's, for every oracle, state and fuel.
+       NOT proved: lifted expressions in value position (the order_safe fragment beyond frag_stmts is
+       searched only), for loops, subscripts.
     2. Order edges (compiler/core.py track_hugr_side_effects), model ModelOrderEdges.v:
        [order_edges_total]           for every table and every sequence of add_node calls of one
                                      tracking context, in every region the inserted order edges are exactly
@@ -37,7 +40,7 @@
     Gap between 1 and 2 (not proved, compared on every run for straight-line programs): the
     expression compiler adds the nodes of a simple statement in its evaluation order. *)
 From Coq Require Import ZArith List Bool Arith.
-From V.C03 Require Import PyAst PySem Cfg CfgSem Builder Frag Witness ProofsBase ProofsExpr ProofsBranch.
+From V.C03 Require Import PyAst PySem Cfg CfgSem Builder Frag Witness ProofsBase ProofsExpr ProofsBranch ProofsBuild.
 From V.C05 Require Import ModelEffects GenEffects ProofsEffects ModelOrderEdges ModelRun
   ProofsLists ProofsTable ProofsOrder ProofsChain ModelTrace ProofsTrace.
 Import ListNotations.
@@ -86,6 +89,53 @@ Proof.
   eexists. split; [exact (S G X st b st' ret EV)|]. simpl. auto.
 Qed.
 Print Assumptions trace_branch_partial.
+
+(* Statement level (re-export of C03's build_preserves_partial, stated on call events only).
+   [frag_stmts p] (coq/C03/Frag.v, decidable): assignments / augmented assignments / expression
+   statements / return with lift-free expressions; if/elif/else, while, break, continue, pass nested
+   arbitrarily; conditions in [frag_cond] (not / and / or / conditional expressions over lift-free
+   leaves, chained comparisons with lift-free operands and call-free middle operands).
+   [trace_of r] = the call events (function, argument values, result) of a finished run, oldest first.
+   For every such program the builder accepts, every oracle, start state and fuel on which Python
+   terminates: some run of the built CFG terminates with exactly Python's sequence of call events, and
+   every terminating run of the CFG has that sequence — each call once, in Python's order, short-circuit
+   operands called only when Python evaluates them. *)
+Theorem trace_equal_partial : forall oracle p returns_none g s,
+  frag_stmts p = true -> build p returns_none = BOk g s ->
+  forall fuel st v st', exec_py oracle fuel p st = Done (v, st') ->
+  (exists fuel', trace_of (run_cfg oracle g fuel' st) = Some (rev (snd st'))) /\
+  (forall fuel' r, run_cfg oracle g fuel' st = Done r ->
+     trace_of (Done r) = trace_of (exec_py oracle fuel p st)).
+Proof. exact trace_equal_frag. Qed.
+Print Assumptions trace_equal_partial.
+
+(* non-trivial instance:
+     while v0 < 3:
+         if f1(v0) and (f1(v1) or f3(2)):
+             v1 = f0(v0) + f2(v1)
+         else:
+             f0(f2(9))
+         v0 += 1
+     return f2(v0)                                                   *)
+Definition ex_trace_prog : stmts :=
+  SCons (SWhile (ECmp (v 0) (CLast CLt (i 3)))
+     (SCons (SIf (EBool BoAnd (ECall 1 (ECons (v 0) ENil))
+                              (EBool BoOr (ECall 1 (ECons (v 1) ENil)) (ECall 3 (ECons (i 2) ENil))))
+                 (one (SAssign (TName (VU 1)) (EBin BAdd (ECall 0 (ECons (v 0) ENil)) (ECall 2 (ECons (v 1) ENil)))))
+                 (one (SExpr (ECall 0 (ECons (ECall 2 (ECons (i 9) ENil)) ENil)))))
+     (one (SAug 0 BAdd (i 1)))) SNil)
+  (one (SReturn (Some (ECall 2 (ECons (v 0) ENil))))).
+Example trace_equal_example :
+  frag_stmts ex_trace_prog = true /\
+  (exists g s, build ex_trace_prog false = BOk g s /\
+     called (exec_py test_oracle 40 ex_trace_prog st0) = Some [1; 1; 0; 2; 1; 2; 0; 1; 2; 0; 2] /\
+     called (run_cfg test_oracle g 400 st0) = Some [1; 1; 0; 2; 1; 2; 0; 1; 2; 0; 2]).
+Proof.
+  split; [reflexivity|].
+  destruct (build ex_trace_prog false) as [g s|] eqn:B; [|vm_compute in B; discriminate].
+  exists g, s. split; [reflexivity|].
+  vm_compute in B. inversion B; subst g. split; vm_compute; reflexivity.
+Qed.
 
 (* if ((-5) < f0() < 9): ...     Python calls f0 once, the built CFG twice *)
 Theorem trace_equal_refuted_chain_dup : trace_refutes w_chain.
